@@ -3,7 +3,10 @@ Obligation tying the hard-coded comparison operators of the FFSP model (`Rl4co/E
 operators `harness/probes/ffsp.py` extracts from the current source of
 `rl4co/envs/scheduling/ffsp/env.py` on every run (`Rl4co/Generated/Params.lean`).  A source edit that
 flips one of them makes this file — and everything that imports it — fail to compile; the check then
-reports the broken tie and searches the real code for a failing input.  No Mathlib.
+reports the broken tie and searches the real code for a failing input.  (Further extracted values enter
+the model itself: the schedule sentinel `UNSET`, the key `_step` reads the machine index from
+(`bookMachine`), the `pomo_idx` operator (`pomoIdx`), the job-column bound of the makespan (`rewardCols`),
+the initial wait bit of the mask, and the generator defaults (`default_gen_wf`).)  No Mathlib.
 -/
 import Rl4co.Generated.Params
 namespace Rl4co.Ffsp
@@ -13,6 +16,12 @@ namespace Rl4co.Ffsp
 theorem params_match :
     Params.ffspMachineReadyCmp = .eq ∧ Params.ffspJobReadyWaitCmp = .eq ∧ Params.ffspWrapCmp = .eq ∧
     Params.ffspMaskWaitCmps = [.eq, .gt] ∧ Params.ffspMaskStageCmps = [.eq, .lt] ∧
-    Params.ffspDoneCmp = .eq := by decide
+    Params.ffspDoneCmp = .eq ∧
+    -- `job_location += 1`, `sub_time_idx + 1`, `machine_wait_steps -= 1`, `job_wait_steps -= 1`
+    Params.ffspStepConsts = [1, 1, 1, 1] ∧
+    -- M·S machines, stage table `arange(S).repeat_interleave(M)`, `wait_allowed = prev + waiting + done`,
+    -- done rows not selected by the loop, `time += wrap`, `sub := 0` on wrap
+    Params.ffspShapeFlags = [true, true, true, true, true, true] ∧
+    Params.ffspInitWaitMasked = true ∧ Params.ffspGenLowHigh = true := by decide
 
 end Rl4co.Ffsp
